@@ -13,7 +13,7 @@ import (
 type bufOp struct {
 	name string
 	buf  int // which of the two buffers
-	kind int // 0 WriteString, 1 WriteRune, 2 Reset, 3 Write, 4 String
+	kind int // 0 WriteString, 1 WriteRune, 2 Reset, 3 Write, 4 String, 5 Bytes
 	s    string
 	r    rune
 	p    []byte
@@ -44,6 +44,8 @@ func applyBufOp(bs [2]*bytes.Buffer, o bufOp) bufStep {
 		st.n, st.err = b.Write(o.p)
 	case 4:
 		st.ret = b.String()
+	case 5:
+		st.ret = string(b.Bytes()) // bstr(r): the text spelled by the returned bytes
 	}
 	st.after = [2]string{bs[0].String(), bs[1].String()}
 	return st
@@ -91,7 +93,10 @@ func checksBytes() {
 	cReset := contract{F, P, "(Buffer) Reset", 15, []string{`ghost.buf == put(old(ghost.buf), this, "")`}}
 	cString := contract{F, P, "(Buffer) String", 18, []string{`r == ghost.buf[this]`}}.withNote(
 		"the clause DEFINES the ghost text as what String() returns; checked: String() is stable and changes no buffer")
-	cWrite := contract{"C14_buckets.spec", P, "(Buffer) Write", 222, []string{`err == nil && n == len(p)`}}
+	cWrite := contract{"C14_buckets.spec", P, "(Buffer) Write", 224, []string{
+		`err == nil && n == len(p)`,
+		`ghost.buf == put(old(ghost.buf), this, old(ghost.buf)[this] + bstr(p))`}}.withNote("bstr(p) is the engine's []byte -> string view: string(p)")
+	cBytes := contract{"C14_buckets.spec", P, "(Buffer) Bytes", 42, []string{`bstr(r) == ghost.buf[this]`}}.withNote("bstr(r) read as string(r)")
 	cNewReader := contract{"C14_buckets.spec", P, "NewReader", 39, []string{`r != nil`}}
 
 	var ops []bufOp
@@ -102,13 +107,14 @@ func checksBytes() {
 			bufOp{name: `WriteString("b\xc3")`, buf: b, kind: 0, s: "b\xc3"},
 			bufOp{name: `WriteRune('c')`, buf: b, kind: 1, r: 'c'},
 			bufOp{name: `Reset()`, buf: b, kind: 2},
-			bufOp{name: `Write("d")`, buf: b, kind: 3, p: []byte("d")},
+			bufOp{name: `Write("d\xc3")`, buf: b, kind: 3, p: []byte("d\xc3")},
 			bufOp{name: `Write(nil)`, buf: b, kind: 3, p: nil},
+			bufOp{name: `Bytes()`, buf: b, kind: 5},
 			bufOp{name: `String()`, buf: b, kind: 4},
 		)
 	}
 	depth := min(L-3, 5)
-	bound := fmt.Sprintf("every sequence of 1..%d operations (WriteString of 3 texts, WriteRune('c'), Reset, Write of 2 slices, String) on two buffers; the clause is evaluated on the last operation", depth)
+	bound := fmt.Sprintf("every sequence of 1..%d operations (WriteString of 3 texts, WriteRune('c'), Reset, Write of 2 slices, String, Bytes) on two buffers; the clause is evaluated on the last operation", depth)
 	frame := func(st bufStep) bool { return st.after[1-st.op.buf] == st.before[1-st.op.buf] }
 
 	check("Buffer.WriteString appends s to this buffer's text, changes no other buffer, returns a nil error", []contract{cWriteString}, bound, func(t *T) {
@@ -139,13 +145,23 @@ func checksBytes() {
 			t.Check(st.ret == st.before[st.op.buf] && st.ret == st.after[st.op.buf] && frame(st), cString.ensures[0], "%v: String()=%q, texts %q -> %q", seq, st.ret, st.before, st.after)
 		})
 	})
-	check("Buffer.Write takes the whole slice and returns a nil error", []contract{cWrite}, bound, func(t *T) {
+	check("Buffer.Bytes spells the buffer's text and is an observer", []contract{cBytes}, bound, func(t *T) {
+		bufWalk(ops, depth, func(seq []bufOp, st bufStep) {
+			if st.op.kind != 5 {
+				return
+			}
+			t.Case()
+			t.Check(st.ret == st.before[st.op.buf] && st.ret == st.after[st.op.buf] && frame(st), cBytes.ensures[0], "%v: string(Bytes())=%q, texts %q -> %q", seq, st.ret, st.before, st.after)
+		})
+	})
+	check("Buffer.Write takes the whole slice, returns a nil error and appends the text of the bytes to this buffer only", []contract{cWrite}, bound, func(t *T) {
 		bufWalk(ops, depth, func(seq []bufOp, st bufStep) {
 			if st.op.kind != 3 {
 				return
 			}
 			t.Case()
 			t.Check(st.err == nil && st.n == len(st.op.p), cWrite.ensures[0], "%v: n=%d err=%v", seq, st.n, st.err)
+			t.Check(st.after[st.op.buf] == st.before[st.op.buf]+string(st.op.p) && frame(st), cWrite.ensures[1], "%v: texts %q -> %q", seq, st.before, st.after)
 		})
 	})
 
